@@ -736,4 +736,5 @@ pub fn run(rec: &mut Rec) {
     lig_one_call(rec);
     crate::special::c01_special(rec);
     crate::special::c01_special_ladder(rec);
+    crate::special::c01_special_universes(rec);
 }
